@@ -89,7 +89,9 @@ def parseAnnounce (lower : Bytes → Bytes) (pkt src : Bytes) (v6Action : Bool) 
   let params ← handleOptionalParameters lower (pkt.drop (ipEnd + 10))
   Sanitize.announce
     { event := ev, eventProvided := true, infoHash := slice pkt 16 36, compact := false,
-      numWantProvided := true, ipProvided := provided, numWant := toNatBE (slice pkt (ipEnd + 4) (ipEnd + 8)),
+      -- BEP 15: num_want = -1 (0xFFFFFFFF) is "default", i.e. not provided (D23)
+      numWantProvided := toNatBE (slice pkt (ipEnd + 4) (ipEnd + 8)) != 4294967295,
+      ipProvided := provided, numWant := toNatBE (slice pkt (ipEnd + 4) (ipEnd + 8)),
       left := toNatBE (slice pkt 64 72), downloaded := toNatBE (slice pkt 56 64), uploaded := toNatBE (slice pkt 72 80),
       peer := { id := slice pkt 36 56, port := toNatBE (slice pkt (ipEnd + 8) (ipEnd + 10)), ip := ip, fam := .v4 },
       params := params }
